@@ -905,10 +905,10 @@ impl Rem for &Number {
     fn rem(self, rhs: Self) -> Self::Output {
         match self {
             Number::Fixnum(lhs) => match rhs {
-                // i64::MIN % -1 overflows although the remainder is 0
-                Number::Fixnum(rhs) => Some(i64::checked_rem(*lhs, *rhs).unwrap_or(0).into()),
+                Number::Fixnum(rhs) => fixnum_rem(*lhs, *rhs),
                 Number::BigInt(rhs) => Some((BigInt::from(*lhs) % &**rhs).into()),
                 Number::Float(rhs) => Some((*lhs as f64 % rhs).into()),
+                Number::Rational(rhs) if rhs.is_integer() => fixnum_rem(*lhs, *rhs.numer() as i64),
                 Number::Rational(rhs) => {
                     let result = Rational64::from_integer(*lhs)
                         % Rational64::from((*rhs.numer() as i64, *rhs.denom() as i64));
@@ -948,9 +948,22 @@ impl Rem for &Number {
                 Number::Fixnum(rhs) => Some((lhs.to_i64().unwrap() % *rhs).into()),
                 Number::Float(rhs) => lhs.to_f64().map(|lhs| (lhs % rhs).into()),
                 Number::BigInt(rhs) => Some((BigInt::from(lhs.to_i64().unwrap()) % &**rhs).into()),
+                Number::Rational(rhs) if lhs.is_integer() && rhs.is_integer() => {
+                    fixnum_rem(*lhs.numer() as i64, *rhs.numer() as i64)
+                }
                 Number::Rational(rhs) => Some((lhs % rhs).into()),
             },
         }
+    }
+}
+
+/// The remainder of two machine integers. i64::MIN % -1 overflows although
+/// the remainder is 0; a zero divisor has no remainder.
+fn fixnum_rem(lhs: i64, rhs: i64) -> Option<Number> {
+    match i64::checked_rem(lhs, rhs) {
+        Some(num) => Some(num.into()),
+        None if rhs == -1 => Some(0.into()),
+        None => None,
     }
 }
 
